@@ -103,6 +103,7 @@ func ParseString(s string) (dep.Type, error) {
 				items[w] = uq
 				w++
 				quoted = quoted[:0]
+				i-- // The outer loop steps over the last field of the quoted string.
 				break
 			}
 		}
